@@ -23,7 +23,7 @@ def bytes_(a, b):
 
 def _win(v):
     v = deref_value({}, v) if v is not None and v[0] == "refval" else v
-    if v is None or v[0] != "variant" or v[1] not in ("Bytes", "Slice"):
+    if v is None or v[0] != "variant" or v[1] not in ("Bytes", "Slice", "CurSlice"):
         return None
     f = dict(v[2])
     a, b = _as_int(f.get(0)), _as_int(f.get(1))
@@ -38,8 +38,8 @@ def _log(st, ev):
 def evaluate(facts, prefix, room):
     fn = facts.method("rewind::Rewind", "Read", "poll_read")
     if not hasattr(facts, "_rewind_unit"):
-        OPAQUE = r"rewind::(remaining|put_slice)$"
-        facts._rewind_unit = inline.inline(facts, fn, 4, lambda ck, raw: "::_::" not in ck and not re.search(OPAQUE, norm(ck)), expand=True)
+        # the crate's cursor helpers are spliced in: the primitive is hyper's cursor itself (see o_cur_* below)
+        facts._rewind_unit = inline.inline(facts, fn, 4, lambda ck, raw: "::_::" not in ck, expand=True)
     u = facts._rewind_unit
     adt = facts.adt("rewind::Rewind")
     fl = adt["variants"][0]["fields"]
@@ -118,6 +118,8 @@ def evaluate(facts, prefix, room):
         r = deref_value(st_, _arg(ev, st_, t, 1))
         if w is None or r is None or r[0] != "variant":
             return False
+        src = deref_value(st_, _arg(ev, st_, t, 0))
+        kind = "CurSlice" if src is not None and src[0] == "variant" and src[1] == "CurSlice" else "Slice"
         f = dict(r[2])
         ln = w[1] - w[0]
         if r[1] == "RangeTo":
@@ -132,7 +134,55 @@ def evaluate(facts, prefix, room):
             return False
         if lo is None or hi is None or lo > hi or hi > ln:
             return False
-        return _set_dest(st_, t, ("refval", ("variant", "Slice", ((0, ("const", str(w[0] + lo))), (1, ("const", str(w[0] + hi)))))))
+        return _set_dest(st_, t, ("refval", ("variant", kind, ((0, ("const", str(w[0] + lo))), (1, ("const", str(w[0] + hi)))))))
+
+    # hyper's cursor at the level of its unsafe interface: `as_mut()` is the unfilled part (`room` bytes), a raw copy to its
+    # start is a pending `copy:[a,b)` event, `advance(n)` turns the pending copy of exactly n bytes into `put:[a,b)`
+    def o_cur_as_mut(ev, st_, t, site):
+        rm = _as_int(st_.get(ROOM))
+        if rm is None:
+            return False
+        return _set_dest(st_, t, ("refval", ("variant", "CurSlice", ((0, ("const", "0")), (1, ("const", str(rm)))))))
+
+    def o_as_ptr(ev, st_, t, site):
+        v = deref_value(st_, _arg(ev, st_, t, 0))
+        w = _win(v)
+        if w is None:
+            return False
+        kind = "CurPtr" if v[1] == "CurSlice" else "SrcPtr"
+        return _set_dest(st_, t, ("variant", kind, ((0, ("const", str(w[0]))), (1, ("const", str(w[1]))))))
+
+    def o_same(ev, st_, t, site):
+        a = _arg(ev, st_, t, 0)
+        return a is not None and _set_dest(st_, t, a)
+
+    def o_copy(ev, st_, t, site):
+        n_ = norm(site.name)
+        a0, a1 = deref_value(st_, _arg(ev, st_, t, 0)), deref_value(st_, _arg(ev, st_, t, 1))
+        n = _as_int(deref_value(st_, _arg(ev, st_, t, 2)))
+        dst, src = (a0, a1) if "copy_from" in n_ else (a1, a0)
+        if n is None or dst is None or src is None or dst[0] != "variant" or src[0] != "variant" or dst[1] != "CurPtr" or src[1] != "SrcPtr":
+            return False
+        d, s_ = dict(dst[2]), dict(src[2])
+        dlo, dhi, slo, shi = (_as_int(x) for x in (d.get(0), d.get(1), s_.get(0), s_.get(1)))
+        if None in (dlo, dhi, slo, shi) or dlo != 0 or n > dhi - dlo or n > shi - slo:
+            return False      # out of bounds, or not to the start of the unfilled part: not a replay the model can name
+        _log(st_, "copy:[%d,%d)" % (slo, slo + n))
+        return _set_dest(st_, t, tup())
+
+    def o_cur_advance(ev, st_, t, site):
+        n = _as_int(deref_value(st_, _arg(ev, st_, t, 1)))
+        rm = _as_int(st_.get(ROOM))
+        l = (st_.get(LOG) or ("list", ()))[1]
+        if n is None or rm is None or n > rm:
+            return False
+        m = re.match(r"^copy:\[(\d+),(\d+)\)$", str(l[-1][1])) if l else None
+        if m and int(m.group(2)) - int(m.group(1)) == n:
+            st_[LOG] = ("list", l[:-1] + (("const", "put:[%s,%s)" % (m.group(1), m.group(2))),))
+        else:
+            _log(st_, "advance-without-copy:%d" % n)
+        st_[ROOM] = ("const", str(rm - n))
+        return _set_dest(st_, t, tup())
 
     def o_remaining(ev, st_, t, site):
         return _set_dest(st_, t, st_.get(ROOM))
@@ -169,8 +219,11 @@ def evaluate(facts, prefix, room):
         return _set_dest(st_, t, ("const", str(min(a, b) if norm(site.name).endswith("min") else max(a, b))))
     raw = [(r"Bytes.*::len$|Buf.*::remaining$|slice.*::len$|<impl \[T\]>::len$", o_len), (r"Bytes.*::is_empty$|<impl \[T\]>::is_empty$|Buf.*::has_remaining$", o_is_empty),
            (r"Buf.*::advance$|Bytes.*::advance$", o_advance), (r"Bytes.*::split_to$", o_split_to), (r"mem::take$", o_take),
-           (r"Bytes.* as std::ops::Deref.*::deref$|Bytes.*::as_ref$|AsRef.*::as_ref$|Bytes.*::chunk$|Buf.*::chunk$", o_deref), (r"Index.*::index$", o_index),
-           (r"rewind::remaining$|ReadBufCursor.*::remaining$", o_remaining), (r"rewind::put_slice$|ReadBufCursor.*::put_slice$", o_put),
+           (r"Bytes.* as std::ops::Deref.*::deref$|Bytes.*::as_ref$|AsRef.*::as_ref$|Bytes.*::chunk$|Buf.*::chunk$", o_deref), (r"Index(Mut)?.*::index(_mut)?$", o_index),
+           (r"ReadBufCursor.*::remaining$", o_remaining), (r"ReadBufCursor.*::put_slice$", o_put),
+           (r"ReadBufCursor.*::as_mut$", o_cur_as_mut), (r"ReadBufCursor.*::advance$", o_cur_advance),
+           (r"<impl \[.*\]>::as_(mut_)?ptr$", o_as_ptr), (r"<impl \*(mut|const) .*>::cast(_mut|_const)?$", o_same),
+           (r"<impl \*mut .*>::copy_from(_nonoverlapping)?$|ptr::copy(_nonoverlapping)?$|intrinsics::copy(_nonoverlapping)?$|<impl \*const .*>::copy_to(_nonoverlapping)?$", o_copy),
            (r"Read.*::poll_read$", o_inner), (r"Pin.* as std::ops::Deref(Mut)?.*::deref(_mut)?$|Pin.*::(new|as_mut|get_mut|new_unchecked)$", o_pin_same),
            (r"cmp::min$|cmp::max$|Ord.*::min$|Ord.*::max$", o_min)] + seqmodel.OPTION_ORACLES + seqmodel.RAW_ORACLES
 
@@ -195,7 +248,7 @@ def evaluate(facts, prefix, room):
             r = "Ready(%s)" % (x[1] if x is not None and x[0] == "variant" else "?")
         else:
             r = "?"
-        res.add((tuple(e[1] for e in lg[1]) if lg is not None else None, r, lf))
+        res.add((tuple(e[1] for e in lg[1] if not re.match(r"^put:\[(\d+),\1\)$", str(e[1]))) if lg is not None else None, r, lf))
     return u, res
 
 
@@ -221,7 +274,7 @@ def table(ctx, facts, label="Rewind::poll_read"):
                 a = dict(pv[2])[0][1]
                 a = int(a)
                 n = min(m, room)
-                want = {(("put:[%d,%d)" % (a, a + n),), "Ready(Ok)", "none" if n == m else "[%d,%d)" % (a + n, a + m))}
+                want = {((("put:[%d,%d)" % (a, a + n),) if n else ()), "Ready(Ok)", "none" if n == m else "[%d,%d)" % (a + n, a + m))}
                 good = "%d byte(s) left, room for %d: the first %d are copied in order, %s, Ready(Ok), the live stream is not read" % (m, room, n, "nothing remains" if n == m else "%d remain for the next call" % (m - n))
             ctx.check(got == want, key, good, "prefix %s, room %d: the call can do (events, answer, prefix left) = %s, expected %s" % (pname, room, sorted(map(str, got)), sorted(map(str, want))), u.where())
     ctx.floor("%s|table-rows" % label, rows, 16, "scenarios evaluated")
